@@ -31,7 +31,7 @@ PROPERTIES = ["PharmpyProofs/C11/Properties.lean"]
 LEAN_SOURCES = ["PharmpyModel/C11/*.lean", "PharmpyProofs/C11/*.lean", "Drivers/C11.lean"]
 TIME_LIMIT = {"quick": 900, "thorough": 3000}
 CASE_CPU_LIMIT = 60
-RULE = ("five case kinds. model (16%): a small Model (2-4 etas with exp effects on CL/V/KA/Q, one epsilon, a FOCE step; no dataset) built with Model.create, then 2-5 steps: raw mode = replace(random_variables=partition of the etas into blocks over pre-existing covariance parameters) / replace(parameters=new covariance values) / both / neither, with covariances corr*sd_i*sd_j of style mild, strong (+-15/16: pairwise fine, jointly indefinite), over (|corr| > 1) or any, so values are valid for one block structure and invalid for another; modeling mode = create_joint_distribution (with or without seeded individual estimates) / split_joint_distribution / remove_iiv / add_iiv / set every covariance of the present blocks to a given correlation. The remaining 84% as follows. ops (3/5): a collection of 1-6 random variables in normal / joint-normal blocks of size 1-4 "
+RULE = ("six case kinds. shared (10%): a collection whose parameters are shared between distributions (IOV layout: the same variance symbol in 2-3 normal distributions, the same symbolic 2x2/3x3 block repeated per occasion, a variance that is also a diagonal element of a block) next to ordinary IIV/RUV distributions and an unused parameter, in seeded order, with exact sd/correlation values (mild, strong or any): parameters_sdcorr (values from the definition, inverse round trip, frame, a second seeded order), validate_parameters / nearest_valid_parameters, the UCP round trip of a model with them, and 3-7 operations of the algebra on the same collection. model (16%): a small Model (2-4 etas with exp effects on CL/V/KA/Q, one epsilon, a FOCE step; no dataset) built with Model.create, then 2-5 steps: raw mode = replace(random_variables=partition of the etas into blocks over pre-existing covariance parameters) / replace(parameters=new covariance values) / both / neither, with covariances corr*sd_i*sd_j of style mild, strong (+-15/16: pairwise fine, jointly indefinite), over (|corr| > 1) or any, so values are valid for one block structure and invalid for another; modeling mode = create_joint_distribution (with or without seeded individual estimates) / split_joint_distribution / remove_iiv / add_iiv / set every covariance of the present blocks to a given correlation. The remaining 74% as follows. ops (3/5): a collection of 1-6 random variables in normal / joint-normal blocks of size 1-4 "
         "(entries: symbols, integers, dyadic rationals, zero covariances; levels IIV/IOV/RUV) and 3-7 operations from "
         "unjoin / join (fill 0, numeric or symbolic fill, name template; rarely an empty, repeated or unknown name) / "
         "index by collection / subs (rename, swap, numeric) / + distribution (rarely a duplicate name or unknown level) / "
@@ -68,7 +68,7 @@ LEVELS = ["IIV", "IOV", "RUV"]
 
 
 def budget(tier):
-    return int(os.environ.get("VERIF_BUDGET", 0)) or {"quick": 3000, "thorough": 60000}[tier]
+    return int(os.environ.get("VERIF_BUDGET", 0)) or {"quick": 2500, "thorough": 60000}[tier]
 
 
 # ---------------------------------------------------------------- generation
@@ -306,6 +306,66 @@ def gen_model_case(rng: random.Random, seed):
     return {"kind": "model", "k": k, "sd": sd, "part": part0, "vals": vals0, "mode": mode, "ops": ops, "seed": seed}
 
 
+def gen_shared_case(rng: random.Random, seed):
+    """A collection whose parameters are shared between distributions (IOV layout): the same variance symbol in
+    several normal distributions, the same symbolic block repeated per occasion, a variance that is also a
+    diagonal element of a block; plus ordinary IIV / RUV distributions. Values: sd (dyadic) and correlations."""
+    nocc = rng.choice([2, 2, 3])
+    dists, sd, corr = [], {}, {}
+    cnt = itertools.count(1)
+
+    def new_var(prefix):
+        nm = f"{prefix}{next(cnt)}"
+        sd[nm] = str(Fraction(rng.randint(1, 12), rng.choice([2, 4, 8])))
+        return nm
+
+    def block(names, level, vs, style):
+        n = len(names)
+        var = [[None] * n for _ in range(n)]
+        for i in range(n):
+            var[i][i] = vs[i]
+            for j in range(i):
+                cn = f"C_{vs[i]}_{vs[j]}"
+                if cn not in corr:
+                    lim = {"mild": 4, "strong": 15, "any": 16}[style]
+                    corr[cn] = [str(Fraction(rng.randint(-lim, lim), 16)), vs[i], vs[j]]
+                var[i][j] = var[j][i] = cn
+        return {"names": names, "level": level, "joint": True, "mean": ["0"] * n, "var": var}
+
+    style = rng.choice(["mild", "mild", "mild", "strong", "any"])
+    # ordinary IIV part
+    if rng.random() < 0.7:
+        k = rng.choice([1, 2, 3])
+        vs = [new_var("IIV") for _ in range(k)]
+        if k == 1:
+            dists.append({"names": ["ETA_I1"], "level": "IIV", "joint": False, "mean": ["0"], "var": [[vs[0]]]})
+        else:
+            dists.append(block([f"ETA_I{i+1}" for i in range(k)], "IIV", vs, style))
+    # IOV normals sharing one variance per parameter
+    shared_normal = [new_var("IOVN") for _ in range(rng.choice([0, 1, 1, 2]))]
+    for v in shared_normal:
+        for occ in range(nocc):
+            dists.append({"names": [f"ETA_{v}_{occ+1}"], "level": "IOV", "joint": False, "mean": ["0"], "var": [[v]]})
+    # IOV blocks repeated per occasion with the same symbolic matrix
+    if rng.random() < 0.8 or not shared_normal:
+        k = rng.choice([2, 2, 3])
+        vs = [new_var("IOVB") for _ in range(k)]
+        if shared_normal and rng.random() < 0.3:
+            vs[0] = shared_normal[0]            # a variance that is also the diagonal element of a block
+        for occ in range(nocc):
+            dists.append(block([f"ETA_B{i+1}_{occ+1}" for i in range(k)], "IOV", vs, style))
+    dists.append({"names": ["EPS_1"], "level": "RUV", "joint": False, "mean": ["0"], "var": [[new_var("SIG")]]})
+    if rng.random() < 0.4:
+        sd["UNUSED"] = "3/2"
+    order = list(range(len(dists)))
+    if rng.random() < 0.5:
+        rng.shuffle(order)
+    dists = [dists[i] for i in order]
+    perm = list(range(len(dists)))
+    rng.shuffle(perm)
+    return {"kind": "shared", "dists": dists, "sd": sd, "corr": corr, "perm": perm, "ops": gen_ops(rng, dists), "seed": seed}
+
+
 def gen_cases(rng: random.Random, n: int, tier: str):
     out = []
     for _ in range(n):
@@ -314,7 +374,10 @@ def gen_cases(rng: random.Random, n: int, tier: str):
         if r < 0.16:
             out.append(gen_model_case(rng, seed))
             continue
-        r = (r - 0.16) / 0.84
+        if r < 0.26:
+            out.append(gen_shared_case(rng, seed))
+            continue
+        r = (r - 0.26) / 0.74
         if r < 0.6:
             dists = gen_dists(rng, shared=rng.random() < 0.15)
             out.append({"kind": "ops", "dists": dists, "ops": gen_ops(rng, dists), "seed": seed})
@@ -401,6 +464,18 @@ def corpus_cases():
         {"kind": "model", "k": 3, "sd": ["1", "3/2", "2"], "part": [[0], [1], [2]], "vals": {}, "mode": "modeling",
          "ops": [["cjd", None, [[1, 2, 5], [2, 4, 4], [3, 6, 3], [4, 9, 1]]], ["setcorr", "15/16", True], ["sjd", [1]],
                  ["remove_iiv", 0], ["add_iiv"], ["cjd", None, None]], "seed": 16},
+        # shared parameters (IOV): two normals with one variance, one 2x2 block repeated per occasion
+        {"kind": "shared", "dists": [
+            {"names": ["ETA_KA_1"], "level": "IOV", "joint": False, "mean": ["0"], "var": [["IOV_KA"]]},
+            {"names": ["ETA_KA_2"], "level": "IOV", "joint": False, "mean": ["0"], "var": [["IOV_KA"]]},
+            {"names": ["ETA_CL_1", "ETA_V_1"], "level": "IOV", "joint": True, "mean": ["0", "0"],
+             "var": [["IOV_CL", "C_IOV_V_IOV_CL"], ["C_IOV_V_IOV_CL", "IOV_V"]]},
+            {"names": ["ETA_CL_2", "ETA_V_2"], "level": "IOV", "joint": True, "mean": ["0", "0"],
+             "var": [["IOV_CL", "C_IOV_V_IOV_CL"], ["C_IOV_V_IOV_CL", "IOV_V"]]},
+            {"names": ["EPS_1"], "level": "RUV", "joint": False, "mean": ["0"], "var": [["SIGMA"]]}],
+         "sd": {"IOV_KA": "1/4", "IOV_CL": "1/2", "IOV_V": "3/4", "SIGMA": "1/8"},
+         "corr": {"C_IOV_V_IOV_CL": ["1/4", "IOV_V", "IOV_CL"]}, "perm": [4, 2, 0, 3, 1],
+         "ops": [["unjoin", ["ETA_V_1"]], ["join", ["ETA_KA_1", "ETA_KA_2"], ["fill", "0"]]], "seed": 17},
         {"kind": "conv", "sd": ["2", "3"], "corr": [["1", "0"], ["0", "1"]], "tri": 3, "flat": ["1", "2", "3", "4", "5", "6"], "seed": 13},
     ]
 
@@ -419,6 +494,19 @@ def shrink(case):
                 c = dict(case)
                 c["dists"] = ds[:i] + ds[i + 1:]
                 yield c
+    elif case["kind"] == "shared":
+        ds = case["dists"]
+        for i in range(len(ds)):
+            if len(ds) > 1:
+                c = dict(case)
+                c["dists"] = ds[:i] + ds[i + 1:]
+                c["perm"] = list(range(len(c["dists"])))[::-1]
+                c["ops"] = []
+                yield c
+        if case["ops"]:
+            c = dict(case)
+            c["ops"] = []
+            yield c
     elif case["kind"] == "model":
         ops = case["ops"]
         for i in range(len(ops)):
@@ -1479,8 +1567,170 @@ def run_model(case, drv):
     return {"k": k, "mon": _dedupe(mon), "tags": tags, "nontrivial": structure_changed}
 
 
+def _spec_sdcorr(case):
+    """the sd/corr form from the definition: sd = sqrt(var), corr = cov / (sd_i sd_j) — exact rationals"""
+    sd = {n: Fraction(v) for n, v in case["sd"].items()}
+    values = {n: v * v for n, v in sd.items()}
+    expect = dict(sd)
+    for cn, (c, a, b) in case["corr"].items():
+        values[cn] = Fraction(c) * sd[a] * sd[b]
+        expect[cn] = Fraction(c)
+    used = {e for d in case["dists"] for row in d["var"] for e in row}
+    for n in values:
+        if n not in used:
+            expect[n] = values[n]       # a parameter of no distribution is not converted
+    return values, expect
+
+
+def run_shared(case, drv):
+    k, mon, tags = [], [], []
+    dists = [build_dist(d) for d in case["dists"]]
+    rvs = RandomVariables.create(dists)
+    values, expect = _spec_sdcorr(case)
+    fvals = {n: float(v) for n, v in values.items()}
+    nshared = sum(1 for n in values if sum(1 for d in case["dists"] if any(n in row for row in d["var"])) > 1)
+    tags += [f"shared:dists={len(dists)}", f"shared:params-in-several-dists={min(nshared, 4)}"]
+    if any(d["joint"] for d in case["dists"]) and any(
+            sum(1 for e in case["dists"] if e["joint"] and e["var"] == d["var"]) > 1 for d in case["dists"] if d["joint"]):
+        tags.append("shared:repeated-block")
+    # ---- parameters_sdcorr: values, round trip, frame, order independence
+    with warnings.catch_warnings():
+        warnings.simplefilter("ignore")
+        got = rvs.parameters_sdcorr(dict(fvals))
+        got2 = RandomVariables.create([dists[i] for i in case["perm"]]).parameters_sdcorr(dict(fvals))
+    if set(got) != set(fvals):
+        mon.append(M("parameters-sdcorr", f"parameters_sdcorr changed the parameter names: {sorted(got)}"))
+    else:
+        for n in sorted(fvals):
+            if not close(float(got[n]), float(expect[n]), rel=1e-12, abs_=1e-15):
+                role = "correlation" if n in case["corr"] else "standard deviation"
+                mon.append(M("parameters-sdcorr", f"parameters_sdcorr[{n}]={float(got[n])!r}, the {role} of the given "
+                             f"values is {float(expect[n])!r} (blocks {[tuple(d['names']) for d in case['dists']]})"))
+                break
+        # inverse conversion with the structure of the collection (sd^2, corr*sd_i*sd_j), read from the result
+        back = {}
+        for n in fvals:
+            if n in case["corr"]:
+                _, a, b = case["corr"][n]
+                back[n] = float(got[n]) * float(got[a]) * float(got[b])
+            elif expect[n] is values[n] or n not in case["sd"] or not any(n in row for d in case["dists"] for row in d["var"]):
+                back[n] = float(got[n])
+            else:
+                back[n] = float(got[n]) ** 2
+        for n in sorted(fvals):
+            if not close(back[n], fvals[n], rel=1e-12, abs_=1e-15):
+                mon.append(M("sdcorr-roundtrip", f"sdcorr^-1(sdcorr(x))[{n}]={back[n]!r}, x[{n}]={fvals[n]!r}"))
+                break
+        for n in sorted(fvals):
+            if not close(float(got2[n]), float(got[n]), rel=1e-12, abs_=1e-15):
+                mon.append(M("sdcorr-order-dependent", f"parameters_sdcorr[{n}] is {float(got[n])!r} with the distributions in "
+                             f"the given order and {float(got2[n])!r} in the order {case['perm']}"))
+                break
+    if drv is not None:
+        q = lambda f: ["q", str(f.numerator), str(f.denominator)]
+        m = drv.ask(["sdcorr", wire_rvs(rvs), [[n, q(v)] for n, v in values.items()]])
+        if m[0] != "ok":
+            k.append(f"parameters_sdcorr: model {m}, code returned values")
+        else:
+            md = {n: Fraction(int(e[1]), int(e[2])) for n, e in m[1]}
+            bad = [n for n in fvals if not close(float(md[n]), float(got.get(n, float('nan'))), rel=1e-12, abs_=1e-15)]
+            if bad:
+                k.append(f"parameters_sdcorr[{bad[0]}]: model {float(md[bad[0]])!r} code {float(got.get(bad[0]))!r}")
+            if m[2] != "true":
+                k.append("parameters_sdcorr: the Lean certificate `agree` (one value per parameter) fails on a generated collection")
+            if m[3] != "true":
+                k.append("parameters_sdcorr: model inverse(model sdcorr(values)) != values")
+    # ---- validate_parameters / nearest_valid_parameters with shared blocks
+    blocks = _block_matrices(rvs, fvals)
+    with warnings.catch_warnings():
+        warnings.simplefilter("ignore")
+        ok = bool(rvs.validate_parameters(fvals))
+        near = rvs.nearest_valid_parameters(fvals)
+    all_well, all_psd = True, True
+    for names, nm, A in blocks:
+        scale = max(1, max(abs(x) for row in A for x in row))
+        if not exact_psd(plus_tol(A, -Fraction(1, 10 ** 10) * scale)):
+            all_well = False
+        if not exact_psd(plus_tol(A, Fraction(1, 10 ** 9) * scale)):
+            all_psd = False
+    tags.append("shared:valid" if all_well else ("shared:invalid" if not all_psd else "shared:borderline"))
+    if all_well and (not ok or any(float(near[n]) != fvals[n] for n in fvals)):
+        mon.append(M("nearest-valid-alters-valid", f"valid values of a collection with shared parameters: validate_parameters={ok}, "
+                     f"nearest_valid_parameters changed {[n for n in fvals if float(near[n]) != fvals[n]]}"))
+    if not all_psd and ok:
+        mon.append(M("validate-accepts-invalid", "validate_parameters accepted a block that is not PSD"))
+    nb = _block_matrices(rvs, near)
+    for names, nm, A in nb:
+        n_ = len(A)
+        scale = max(1, max(abs(x) for row in A for x in row))
+        sym = [[(A[i][j] + A[j][i]) / 2 for j in range(n_)] for i in range(n_)]
+        if not exact_psd(plus_tol(sym, Fraction(1, 10 ** 9) * scale)):
+            mon.append(M("nearest-valid-leaves-invalid", f"block {list(names)} is not PSD at nearest_valid_parameters(values)"))
+            break
+    if drv is not None:
+        w = wire_rvs(rvs)
+        vt, nt, seen = [], [], []
+        for d in rvs:
+            if isinstance(d, JointNormalDistribution):
+                wv = [[wire_entry(d.variance[i, j]) for j in range(d.variance.cols)] for i in range(d.variance.rows)]
+                if wv in seen:
+                    continue
+                seen.append(wv)
+                A = d.variance.subs(fvals).to_numpy()
+                with warnings.catch_warnings():
+                    warnings.simplefilter("ignore")
+                    vt.append([wv, "true" if pmath.is_positive_semidefinite(A) else "false"])
+                    B = pmath.nearest_positive_semidefinite(A)
+                nt.append([wv, "same" if B is A else [[repr(float(B[i, j])) for j in range(len(A))] for i in range(len(A))]])
+        m = drv.ask(["validate", w, vt])
+        if m != ("true" if ok else "false"):
+            k.append(f"validate_parameters (shared parameters): model {m} code {ok}")
+        m = drv.ask(["nearestvalid", w, nt, [[kk_, repr(float(v))] for kk_, v in fvals.items()]])
+        code = {kk_: repr(float(v)) for kk_, v in near.items()}
+        if m[0] != "ok" or dict(map(tuple, m[1])) != code:
+            k.append(f"nearest_valid_parameters (shared parameters): model {str(m)[:300]} code {str(code)[:300]}")
+    # ---- UCP round trip on a model with these random variables (needs positive definite blocks)
+    if all_well and all(exact_pd(A) for _, _, A in blocks):
+        has_neg = False
+        for _, _, A in blocks:
+            ch = np.linalg.cholesky(np.array([[float(x) for x in row] for row in A]))
+            if any(ch[i, j] < -1e-13 for i in range(len(A)) for j in range(i)):
+                has_neg = True
+        model = Model.create(name="m", parameters=Parameters.create([Parameter.create(n, v) for n, v in fvals.items()]),
+                             random_variables=rvs)
+        try:
+            with warnings.catch_warnings():
+                warnings.simplefilter("ignore")
+                scale = modeling.calculate_ucp_scale(model)
+                back = modeling.calculate_parameters_from_ucp(model, scale, {n: 0.1 for n in fvals})
+            tags.append("shared:ucp")
+            used_ = {e for d in case["dists"] for row in d["var"] for e in row}
+            for n in fvals:
+                # a parameter of no distribution is an unbounded theta: tolerance 1e-12 of its range 2e6
+                if not close(float(back[n]), fvals[n], rel=1e-12, abs_=1e-15 if n in used_ else 2e-6):
+                    cls = "ucp-negative-covariance-sign-lost" if has_neg else "ucp-roundtrip"
+                    mon.append(M(cls, f"shared parameters: from_ucp(scale(M), 0.1)[{n}]={float(back[n])!r}, initial estimate {fvals[n]!r}"))
+                    break
+        except Exception as e:
+            lv = {d["level"] for d in case["dists"]}
+            if "RUV" not in lv or not (lv - {"RUV"}):
+                mon.append(M("ucp-empty-level-error", f"calculate_ucp_scale / calculate_parameters_from_ucp raised {type(e).__name__} "
+                             f"for a model without {'epsilons' if 'RUV' not in lv else 'etas'}: {e}"))
+            else:
+                mon.append(M("internal-error", f"shared parameters: calculate_ucp_scale / calculate_parameters_from_ucp raised {type(e).__name__}: {e}"))
+    # ---- the algebra (join / unjoin / index / subs / +) on the same collection
+    if case["ops"]:
+        r = run_ops({"kind": "ops", "dists": case["dists"], "ops": case["ops"], "seed": case["seed"]}, drv)
+        k += r["k"]
+        mon += r["mon"]
+        tags += r["tags"]
+    return {"k": k, "mon": _dedupe(mon), "tags": tags, "nontrivial": nshared > 0}
+
+
 def run_case(case, drv):
     kind = case["kind"]
+    if kind == "shared":
+        return run_shared(case, drv)
     if kind == "model":
         return run_model(case, drv)
     if kind == "ops":
